@@ -256,12 +256,17 @@ def run(R):
                  "embedded-hal SpiDevice::write / OutputPin contracts", "finite iterators (chunks, caller streams) end",
                  "stated precondition of the property: the staging buffer holds at least one pixel (len >= N) and is shorter than 4 GiB"]
     R.explanation = ("Decided on the polymorphic SpiInterface bodies: (a) send_command's event word is DC low, write([command]), DC high, "
-                     "write(args) with error paths as prefixes; (b) the pixel methods never touch DC and emit only SPI writes; (d) every "
-                     "slice written by the pixel methods has a length that depends on what was staged in this round (never the whole "
-                     "buffer: stale padding), necessary condition; (e) every loop makes progress: iterator-driven loops consume a "
-                     "finite iterator, counter loops must decrease their counter by an amount entailed >= 1 under the stated "
-                     "precondition (this is what catches a zero repeat count never terminating). Error discipline is C12. Not decided: "
-                     "that exactly count*N bytes are written and that chunk k carries pixel k (array-content / division arithmetic).")
+                     "write(args) with error paths as prefixes; (b) the pixel methods never touch DC and emit only SPI writes; (c) "
+                     "conservation: round the staging loop of send_pixels N x (pixels pulled) = staged bytes + written bytes and no pixel "
+                     "is pulled on a path that leaves for the write; send_repeated_pixel's counter starts at count, every round writes "
+                     "N x (what it subtracts) and the remainder write is N x (what is left), so the total is count*N; (d) every slice "
+                     "written by the pixel methods has a length that depends on what was staged in this round (never the whole buffer); "
+                     "(e) every loop makes progress: a pass that goes round again consumes an item of a loop-carried finite iterator or "
+                     "writes >= 1 staged byte, counter loops decrease by an amount entailed >= 1 under the stated precondition (this "
+                     "caught a zero repeat count never terminating); no explicit panic is reachable and no bounds / overflow / unwrap "
+                     "panic remains unentailed in the pixel methods when the buffer holds at least one pixel (index bounds through one "
+                     "product step: len - N*k >= 0 from k <= len / N). Error discipline is C12. Not decided: that chunk k carries pixel k "
+                     "(array-content reasoning).")
     for cfg in R.configs:
         F = R.facts(cfg)
         # ---------------- (a) send_command
@@ -297,6 +302,7 @@ def run(R):
             rec = C.one(F.trait_impl_method(C.IFACE, mname, self_adt=SPIIF), "SpiInterface::" + mname)
             ex = R.executor(F)
             ex.keep_dead_entry_locals = True        # the repeat counter is read at the return
+            ex.product_step = True                  # bounds of the form N * count <= len need one product step
             ex.conserved_coeffs = [sym_int("const N", F.pointer_bits, False), -sym_int("const N", F.pointer_bits, False)]
             ln = sym_int("len(*self.buffer)", F.pointer_bits, False)
             nn = sym_int("const N", F.pointer_bits, False)
@@ -325,6 +331,13 @@ def run(R):
             # an explicit panic (assert! / panic! / unreachable!) that the stated precondition "the buffer holds at least one
             # pixel" does not exclude: the call would abort instead of delivering the bytes
             for o in res.panics():
+                if o.info.get("kind") != "panic_call":
+                    sp_ = o.info.get("span") or {}
+                    R.ob("C06-pixels-no-panic", "%s|%s|%s|%s" % (tag, o.info.get("what") or o.info.get("kind"), o.info.get("op"), o.info.get("callee") or ""), False,
+                         "%s is not free of panics at %s:%s (%s %s; the condition that must hold, %s, does not follow from the path for every "
+                         "buffer length >= N, count and stream): the call would abort instead of delivering the bytes" % (mname, sp_.get("file"), sp_.get("line"), o.info.get("what") or o.info.get("kind"),
+                                                                          o.info.get("op") or "", str(o.info.get("cond"))[:160]),
+                         "%s:%s" % (sp_.get("file"), sp_.get("line")))
                 if o.info.get("kind") == "panic_call":
                     sp_ = o.info.get("span") or {}
                     R.ob("C06-no-explicit-panic", "%s|panic@%s" % (tag, o.info.get("callee")), False,
